@@ -12,6 +12,8 @@ use iggy::utils::expiry::IggyExpiry;
 use iggy::utils::topic_size::MaxTopicSize;
 use std::collections::HashMap;
 
+pub static ENCRYPTED: std::sync::atomic::AtomicBool = std::sync::atomic::AtomicBool::new(false);
+
 pub fn err_name(e: &IggyError) -> String {
     format!("err {}", e.as_string())
 }
@@ -178,7 +180,11 @@ pub fn polled(m: &PolledMessage) -> String {
     if m.headers != expand_headers(tag, nhdr) {
         return format!("{}:BAD-headers", m.offset);
     }
-    if m.checksum != iggy::utils::checksum::calculate(p) {
+    // with server-side encryption the stored checksum is that of the ciphertext (it is "the checksum
+    // the message was stored with", C02); it is comparable with the payload only without encryption
+    if !ENCRYPTED.load(std::sync::atomic::Ordering::Relaxed)
+        && m.checksum != iggy::utils::checksum::calculate(p)
+    {
         return format!("{}:BAD-checksum", m.offset);
     }
     format!(
